@@ -117,7 +117,7 @@ BYTES_OPS = {'CAT', 'SLICE', 'SER', 'SER_SIGNED', 'HMAC512', 'HMAC', 'SHA256', '
 STR_OPS = {'NORM', 'HEX', 'B58ENC', 'BECH32', 'FORMAT', 'STR', 'DECODE', 'JOIN', 'UPPER', 'STRIP', 'BIN', 'ZFILL',
            'STRCAT', 'JSON', 'LOWER'}
 INT_OPS = {'INT', 'INT_SIGNED', 'ADD', 'SUB', 'MUL', 'MOD', 'FLOORDIV', 'POW', 'LEN', 'SK_ADD_INT', 'INTCAST', 'RANDBITS',
-           'LSHIFT', 'RSHIFT', 'BITAND', 'BITOR', 'BITXOR', 'NEG', 'ORD', 'INT2', 'FIND', 'RFIND', 'INDEX', 'COUNT'}
+           'LSHIFT', 'RSHIFT', 'BITAND', 'BITOR', 'BITXOR', 'NEG', 'ORD', 'INT2', 'FIND', 'RFIND', 'INDEX', 'COUNT', 'LEADRUN'}
 BOOL_OPS = {'LT', 'EQ', 'NOT', 'AND', 'OR', 'IN', 'IS', 'ISINSTANCE', 'BOOL', 'VALID_SK', 'LE', 'ALL', 'ANY'}
 POINT_OPS = {'PT', 'PT_ADD', 'PARSE_PT', 'PARSE_PT_UNVALIDATED'}
 
@@ -538,7 +538,7 @@ def slice_(t, lo, hi):
 def getitem(t, idx):
     if tag(t) == 'dict' and len(t[1]) == 0 and tag(idx) not in ('phi', 'raise'):
         return raise_('KeyError')          # nothing is in an empty mapping
-    if tag(t) == 'dict' and tag(idx) not in ('phi', 'raise', 'enum') and 0 < len(t[1]) <= 32 \
+    if tag(t) == 'dict' and tag(idx) not in ('phi', 'raise', 'enum') and 0 < len(t[1]) <= 64 \
             and (not is_const(idx) or not all(is_const(k) or tag(k) == 'enum' for k, _ in t[1])):
         # look-up by a symbolic key in a table with constant keys: a case analysis over the keys
         out = raise_('KeyError')
